@@ -24,6 +24,9 @@ type vNumDef struct {
 var vEnumNums = []float64{1, 2, 3}
 
 func vNumType(tag string) (string, string) {
+	if vParam("numtypes") == 1 {
+		return "integer", "int32"
+	}
 	if vParam("numtypes") == 3 {
 		switch vChoice(tag+".type", 3) {
 		case 0:
